@@ -42,7 +42,8 @@ Step(insts, ns, si, sc, sk) ==
   /\ rdy' = f[1]
   /\ (ns > 0 => sc \in Callers /\ st[sc] # "idle" /\ sk = key[sc])      \* the request reaches the inner service unchanged
   /\ gates' = (IF ns > 0 THEN [gates EXCEPT ![sc] = @ \cup (si..(si + ns - 1))] ELSE gates)
-OnceOK(c, g) == IF cfg.retries = 1 /\ failed[c] THEN Cardinality(g) <= 3 ELSE Cardinality(g) = 1
+\* retries = 0: exactly once; 1: again only after an inner failure; 2: hedged attempts at any time
+OnceOK(c, g) == IF cfg.retries = 2 \/ (cfg.retries = 1 /\ failed[c]) THEN (Cardinality(g) >= 1 /\ Cardinality(g) <= 3) ELSE Cardinality(g) = 1
 OpReady(res, insts) ==
   /\ OuterReadyOK(res, insts) /\ Step(insts, 0, 0, 0, 0)
   /\ ev' = [e |-> "op", name |-> "ready"] /\ UNCHANGED <<cfg, key, failed, st>>
@@ -61,8 +62,11 @@ PollPending(c, insts, ns, si, sc, sk) ==
 \* the call's response or error comes back unchanged, wrapped only in pass-through variants
 PollResult(c, res, kind, val, rq, insts, ns, si, sc, sk) ==
   /\ st[c] = "live" /\ Step(insts, ns, si, sc, sk) /\ st' = [st EXCEPT ![c] = "done"]
-  /\ val \in gates'[c] /\ OnceOK(c, gates'[c])
-  /\ (IF res = "ok" THEN rq = c ELSE (res = "err" /\ kind = "inner1" /\ failed[c]))
+  /\ OnceOK(c, gates'[c])
+  /\ (IF res = "ok" THEN (rq = c /\ val \in gates'[c])
+      ELSE /\ res = "err" /\ failed[c]
+           /\ \/ (kind = "inner1" /\ val \in gates'[c])
+              \/ (cfg.retries = 2 /\ kind = "allfailed"))          \* hedging: every started attempt failed (the layer's own condition)
   /\ ev' = [e |-> "poll", c |-> c, res |-> res] /\ UNCHANGED <<cfg, key, failed>>
 Complete(c, out, insts, ns, si, sc, sk) ==
   /\ Step(insts, ns, si, sc, sk)
